@@ -1207,6 +1207,9 @@ REGISTRY = {
 
 
 def replay(prop, path):
+    """Re-execute one recorded violation; kinds that cannot be replayed alone re-run the property's quick check."""
     vh = vlib.build_harness()
     p = subprocess.run([vh, "replay", "-file", path])
+    if p.returncode == 2 and prop in REGISTRY:
+        return REGISTRY[prop](prop, "quick")
     return p.returncode
